@@ -68,7 +68,7 @@ def rand_case(rng, ncrit=(0, 3), stab=None, small=False, zero=None):
     if stab is None: stab = two and rng.random() < 0.35
     if stab: two = True
     I = O.gen_instance(rng, rng.randint(1, 3 if small else 4), rng.randint(1, 3), rng.randint(1, 3), na=na, twopl=two,
-                       zero=(rng.random() < 0.3 if zero is None else zero), maxq=2, maxlen=3)
+                       zero=(rng.random() < 0.3 if zero is None else zero), maxq=2, maxlen=3, unranked=(rng.random() < 0.12))
     k = rng.randint(*ncrit); names = rng.sample(CRIT, k); poss = sorted(rng.sample(range(1, 10), k)); crits = []
     R = max(O.maxrank(I), 1)
     for c, pos in zip(names, poss):
